@@ -53,6 +53,8 @@ inductive Prog
   | twice (status size : Nat)         -- WriteHeader(status); WriteHeader(500); Write(size bytes)
   | abort (status size : Nat)         -- a middleware writes (status, size), calls Abort, the handler is not entered
   | panics (size : Nat)               -- the handler panics, the recovery middleware answers 500 with `size` bytes (library body)
+  | copy (status size : Nat)          -- WriteHeader(status); io.Copy(w, reader of `size` bytes) — the wrapper's ReadFrom
+  | copyOnly (size : Nat)             -- io.Copy(w, reader) without WriteHeader
   deriving DecidableEq, Repr
 
 /-- events the counting recorder and the probe handlers log, in order -/
@@ -77,6 +79,8 @@ def Prog.resp : Prog → Nat × Nat × Bool
   | .twice st n => (st, n, true)
   | .abort st n => (st, n, false)
   | .panics n => (500, n, true)
+  | .copy st n => (st, n, true)
+  | .copyOnly n => (200, n, true)
 
 /-- ids the harness gives the middleware in front of the `abort` / `panics` routes -/
 def mwHid : Nat := 90
@@ -201,6 +205,7 @@ def serveAsIs (f : Facts) (p : Prog) : Out := serveWith true f p
 inductive WOp
   | header (code : Nat)   -- WriteHeader(code)
   | write (n : Nat)       -- Write(n bytes), fully accepted by the underlying writer
+  | readFrom (n : Nat)    -- ReadFrom(r) with n bytes in r (io.Copy into the writer)
   deriving DecidableEq, Repr
 
 /-- net/http's (and httptest's) writer as the client sees it: the first WriteHeader wins, a Write without
@@ -213,6 +218,7 @@ structure Wire where
 def Wire.step (w : Wire) : WOp → Wire
   | .header c => if w.status.isNone then { w with status := some c } else w
   | .write n => { status := some (w.status.getD 200), size := w.size + n }
+  | .readFrom n => { status := some (w.status.getD 200), size := w.size + n }
 
 def Wire.clientStatus (w : Wire) : Nat := w.status.getD 200
 
@@ -230,6 +236,11 @@ def RW.step (rw : RW) : WOp → RW
   | .write n =>
     let rw1 := if !rw.written then { rw with written := true, statusCode := 200 } else rw
     { rw1 with under := rw1.under.step (.write n), size := rw1.size + n }
+  | .readFrom n =>
+    -- both branches of ReadFrom (underlying io.ReaderFrom, or io.Copy into the underlying writer): the bytes go to the
+    -- underlying writer, `rw.size += n`, `if !rw.written { rw.written = true; if rw.statusCode == 0 { rw.statusCode = 200 } }`
+    let rw1 := { rw with under := rw.under.step (.readFrom n), size := rw.size + n }
+    if !rw1.written then { rw1 with written := true, statusCode := if rw1.statusCode = 0 then 200 else rw1.statusCode } else rw1
 
 /-- StatusCode(): `if rw.statusCode == 0 { return http.StatusOK }` -/
 def RW.StatusCode (rw : RW) : Nat := if rw.statusCode = 0 then 200 else rw.statusCode
@@ -244,5 +255,7 @@ def Prog.ops : Prog → List WOp
   | .twice st n => [.header st, .header 500, .write n]
   | .abort st n => [.header st, .write n]
   | .panics n => [.header 500, .write n]
+  | .copy st n => [.header st, .readFrom n]
+  | .copyOnly n => [.readFrom n]
 
 end Rivaas.Serve
